@@ -169,12 +169,39 @@ def _uri_decode_option(ctx):
                 ctx.violation("from_parts with uri_decode=True builds the pointer of the percent-decoded tokens", {"tokens": [a] + ([b] if b else [])}, g2.get("ok", g2.get("err")), w2.get("ok", w2.get("err")))
 
 
+def _spell_tie(ctx):
+    """`Pointer.spellTokens` (the RFC 6901 spelling the theorems `print_fromParts` / `parse_spell_eq_fromParts` are stated with) and
+    `intStr` (`str(int)`, under `encode`, object lookups by index and the serializer) through their own driver operations: the spelling of
+    every token sequence of length <= 2 over the alphabet against the harness's own spelling and against `str(JSONPointer.from_parts(...))`
+    where the constructor accepts the tokens; `str(i)` for small, negative, power-of-ten and 2^53 / 2^64 boundary integers."""
+    from jsonpath import JSONPointer
+
+    alpha = [a for a in ALPHABET] + ["~~", "//", "~/", "/~", "~1~0", "~00", "a/b~c"]
+    seqs = [[]] + [[a] for a in alpha] + [[a, b] for a in alpha for b in alpha]
+    outs = ctx.driver.run([{"op": "ptr.spell", "tokens": ts} for ts in seqs], jobs=ctx.jobs)
+    for ts, m in zip(seqs, outs):
+        want = "".join("/" + t.replace("~", "~0").replace("/", "~1") for t in ts)
+        ctx.case(("spell", tuple(ts)), nontrivial=bool(ts))
+        if m.get("s") != want or G.rfc6901_spell(ts) != want:
+            ctx.mismatch("ptr.spell", {"tokens": ts}, want, m.get("s"))
+        r = core.outcome(lambda: str(JSONPointer.from_parts(ts)))
+        if "ok" in r and r["ok"] != want:
+            ctx.violation("building a pointer from a token list and printing it gives the RFC 6901 spelling of those tokens", {"tokens": ts}, r["ok"], want)
+    ints = sorted(set([0, 1, -1, 9, 10, -10, 99, 100, 101, -100, 12345, 2 ** 31, -2 ** 31, 2 ** 53 - 1, 2 ** 53, -(2 ** 53), 2 ** 63, 2 ** 64, -(2 ** 64) - 1, 10 ** 18, 10 ** 18 - 1]
+                      + [ctx.rng.randrange(-10 ** 12, 10 ** 12) for _ in range(200)]))
+    for i, m in zip(ints, ctx.driver.run([{"op": "prim.intstr", "i": i} for i in ints], jobs=ctx.jobs)):
+        ctx.case(("intstr", i), nontrivial=True)
+        if m.get("s") != str(i):
+            ctx.mismatch("prim.intstr", {"i": i}, str(i), m.get("s"))
+
+
 def evaluate(ctx, cases):
     from jsonpath import JSONPointer
 
     if not getattr(ctx, "_uri_done", False):
         ctx._uri_done = True
         _uri_decode_option(ctx)
+        _spell_tie(ctx)
 
     reqs, meta = [], []
     for c in cases:
